@@ -81,6 +81,10 @@ func genRTCase(t *rapid.T) (*RTCase, bool) {
 			r.Val, r.HasVal = v, true
 			nt = nt || (qc && n >= 2)
 		}
+		if r.HasVal && !strings.Contains(r.Val, "'") && rapid.IntRange(0, 14).Draw(t, "keyInValue") == 8 {
+			// a value that begins with the rule's own name and an equals sign (prefix=prefix=, in=in=(a/b)): text like any other
+			r.Val = r.Key + "=" + r.Val
+		}
 		switch rapid.IntRange(0, 9).Draw(t, "msgKind") {
 		case 9:
 			// a long ASCII text followed by CJK: the label follows the whole message, however long
